@@ -69,7 +69,7 @@ func (f *Send) Place(s *slip.Scope, args slip.List, value slip.Object) {
 	if !ok {
 		slip.TypePanic(s, 0, "object of send", args[0], "instance")
 	}
-	if method, ok2 := args[1].(slip.Symbol); ok2 {
+	if method, ok2 := args[1].(slip.Symbol); ok2 && 0 < len(method) {
 		_ = self.Receive(
 			s,
 			string(append([]byte(":set-"), string(method)[1:]...)),
